@@ -43,8 +43,12 @@ Definition upload (r id : string) (es : list entry) (E : nat) (w : wstate) : rc 
       end
   end.
 
+(* core's check of a label name: a single non-empty path element *)
+Definition label_elem_ok (n : string) : bool :=
+  negb (String.eqb n EmptyString) && negb (String.eqb n ".") && negb (String.eqb n "..") && noslash n.
+
 Definition set_label (r name b : string) (w : wstate) : rc * wstate :=
-  if negb (repo_exists r w) || negb (label_name_ok name) || String.eqb b EmptyString then (RErr, w) else
+  if negb (repo_exists r w) || negb (label_elem_ok name) || String.eqb b EmptyString then (RErr, w) else
   (ROk, with_vmeta w (snd (mput (GetArchivePathToLabel r name) (VLabel name b) false (w_vmeta w)))).
 
 Definition get_label (r name : string) (w : wstate) : option string :=
